@@ -20,6 +20,7 @@ relative to the larger operand (DESIGN.md §7, C05).
 import PhQVerif.Theory.Inverse
 import PhQVerif.Generated.Obl_C05inv
 import PhQVerif.Theory.RelErr
+import PhQVerif.Props.C04
 
 namespace PhQVerif.Props.C05
 open PhQVerif Generated
@@ -27,6 +28,20 @@ open PhQVerif Generated
 /-- **C05.** Every signature-derived pair of relations is a pair of mutual inverses over the reals,
 for all positive inputs in the domain of the composition. -/
 theorem inverse_pairs : ∀ p ∈ InversePairs.rows, InverseOn p := Obl.C05inv
+
+/-- **C05 (every spelling of a relation).** The inverse pairs above are derived from the *constructors*.
+A relation also exists as operators (`Traction * Area`, `Force / Area`, …): every operator that has a
+constructor twin returns, bit for bit and for all inputs, exactly what that constructor returns (C04's
+`twins_identical`), so composing relations through their operator spellings is composing the
+constructors, to which `inverse_pairs` applies. Restated here so that an operator spelling that drifts
+from its constructor fails this property's check too. -/
+theorem operator_spellings_are_the_constructors :
+    ∀ t ∈ Twins.rows, ∃ a b, t.1.numOuts = some a ∧ t.2.1.numOuts = some b ∧ a.length = b.length ∧
+      ∀ (L : Libm) (env : Nat → Fl),
+        a.map (fun ex => ex.evalF L env) =
+          b.map (fun ex => ex.evalF L (if t.2.2 then
+            (fun j => env (match t.2.1.argSizes with | [n, m] => swapRenaming n m j | _ => j)) else env)) :=
+  C04.twins_identical
 
 /-- At most 9 roundings in any composition that lies in the positive fragment (443 of the 491 composite
 slots; the others subtract). -/
